@@ -12,6 +12,11 @@ def inputs(tier="quick"):
             if list(shp).count(4) > 1:
                 continue
             out.append(("c01B", c01.build({"fam": "B", "shapes": list(shp), "layout": "line"})[0]))
+    # C01 family A: every default form on every type form
+    for ti in range(len(c01.TYPES)):
+        for di in range(len(c01.DEFAULTS)):
+            dial_a = c01.build({"fam": "A", "opts": ["DEF"], "type": ti, "default": di, "ref": 0, "pos": 1})[0]
+            out.append(("c01A", dial_a))
     for tabs in itertools.product(range(len(c01.TABS)), repeat=2):
         out.append(("c01C", c01.build({"fam": "C", "tabs": list(tabs), "schema": True, "layout": "multi"})[0]))
     # C02 single constraint items (no two-word actions, no position-0)
@@ -23,6 +28,16 @@ def inputs(tier="quick"):
     for k in c04.KINDS:
         for tgt in ("s1.t", "S3.T"):
             out.append(("c04", base + c04.stmt([k, tgt, "asis", "asis", "asis"])))
+    # C04: every pair and triple of the statements that edit the column list of one table (incl. keys over renamed / added columns)
+    one = c04.TABLES["t"][2] + "\n" + c04.TABLES["u"][2] + "\n"
+    for n in (2, 3):
+        for ks in itertools.product(["add", "rename", "rend", "drop", "fk1", "fkbb", "fkd"], repeat=n):
+            hist = "\n".join(c04.stmt([k, "t", "asis", "asis", "asis"]) for k in ks)
+            dial_h = ("c04h", one + hist)
+            out.append(dial_h) if tier == "thorough" else None
+            if tier != "thorough" and ("rename" in ks or "rend" in ks) and any(k.startswith("fk") for k in ks):
+                out.append(dial_h)
+                out.append(dial_h)  # (twice: the quick tier keeps every 2nd input)
     # C09: types
     for t in c09.types(1) + c09.types(2)[:8]:
         out.append(("c09", c09.build({"kind": "angle", "type": t, "sp": "comma", "pos": 1, "opt": 1})[0]))
